@@ -60,7 +60,7 @@ def xs(X):
 
 def skeletons(tier):
     """yield skeleton specs (dicts); deterministic order, simplest first"""
-    prefixes = [[], [("plain",)], [("helper",)]]
+    prefixes = [[], [("plain",)], [("helper",)], [("plainff",)]]
     prefixes += [[("define", X)] for X in XSETS]
     prefixes += [[("include", X)] for X in XSETS]
     prefixes += [[("define", XSETS[i]), ("include", XSETS[(i + 3) % 7])] for i in range(7)]
@@ -110,6 +110,12 @@ def render(sk, incdir, variant=0):
     for p in sk["prefix"]:
         if p[0] == "plain":
             l = "/* plain file-scope text of skeleton %d */" % k
+            lines.append(l)
+            exp["plain"].append(l)
+        elif p[0] == "plainff":
+            # legal C text with characters a line-oriented rewriter may mistake for line ends: form feed (the page breaks of
+            # GNU-style sources) and vertical tab
+            l = "/* plain text of skeleton %d: form\x0cfeed, vertical\x0btab */" % k
             lines.append(l)
             exp["plain"].append(l)
         elif p[0] == "helper":
